@@ -43,11 +43,11 @@ func (k KwDesc) Accepted() (string, bool) {
 }
 
 type C06Step struct {
-	Op   string  `json:"op"` // kw op ex nonest nopad paren encap seterr
-	Kw   *KwDesc `json:"kw,omitempty"`
-	Oper *OpDesc `json:"oper,omitempty"`
-	Ex   *Node   `json:"ex,omitempty"` // nil pointer = untyped nil expression
-	Mode int     `json:"mode,omitempty"` // tri-state: 0 true 1 false 2 toggle ; seterr: 0 set 1 clear
+	Op   string   `json:"op"` // kw op ex nonest nopad paren encap seterr
+	Kw   *KwDesc  `json:"kw,omitempty"`
+	Oper *OpDesc  `json:"oper,omitempty"`
+	Ex   *Node    `json:"ex,omitempty"`   // nil pointer = untyped nil expression
+	Mode int      `json:"mode,omitempty"` // tri-state: 0 true 1 false 2 toggle ; seterr: 0 set 1 clear
 	Enc  []string `json:"enc,omitempty"`  // encap: nil => no argument (clear)
 }
 
@@ -82,16 +82,16 @@ func encapModelAdd(list [][]string, pair []string) [][]string {
 }
 
 type c06Model struct {
-	kw      string
-	op      *OpDesc
-	opVal   stackage.Operator
-	ex      *Node
-	exVal   any
-	nonest  bool
-	nopad   bool
-	paren   bool
-	enc     [][]string
-	err     error
+	kw     string
+	op     *OpDesc
+	opVal  stackage.Operator
+	ex     *Node
+	exVal  any
+	nonest bool
+	nopad  bool
+	paren  bool
+	enc    [][]string
+	err    error
 }
 
 func exprIsStackLike(n *Node) bool { return n != nil && n.IsStack() }
@@ -210,7 +210,7 @@ func runC06(c C06Case) (st Stats, err error) {
 				v = violf("Keyword", "%s: Keyword()=%q, model %q", where, got, m.kw)
 				return
 			}
-			if got := cd.Operator(); got != m.opVal {
+			if got := cd.Operator(); !sameOp(got, m.opVal) {
 				v = violf("Operator", "%s: Operator()=%#v, model %#v", where, got, m.opVal)
 				return
 			}
@@ -412,7 +412,7 @@ func genOper(t *rapid.T) OpDesc {
 	case 2:
 		return OpDesc{K: "user", Text: rapid.SampledFrom([]string{"", "~="}).Draw(t, "utext"), Ctx: rapid.SampledFrom([]string{"", "ctx"}).Draw(t, "uctx")}
 	case 3:
-		return OpDesc{K: "user", Text: "≈", Ctx: "approx"}
+		return OpDesc{K: rapid.SampledFrom([]string{"user", "uslice"}).Draw(t, "ukind"), Text: "≈", Ctx: "approx"}
 	}
 	return OpDesc{K: "cmp", I: rapid.IntRange(1, 6).Draw(t, "cmp")}
 }
